@@ -42,11 +42,9 @@ theorem C01_error_lines (D : List Dialect) (T : Table) (hT : Spec.lookaheadsStop
     ∀ e ∈ es, 1 ≤ e.loc.line ∧ e.loc.line ≤ (splitLines src).length + 1 :=
   Lemmas.parse_error_lines D T hT stop μ ids src es comp h
 
-/- linear bound: not proved; checked by the harness on the implementation.
-   (A bound `calls ≤ (maxTests T + lookaheadCost T) · (lines + 1)` for *every* table satisfying
-   `lookaheadsStopAtEOF` is false: a guarded branch may fire on every line and its look-ahead
-   rescans the whole rest — quadratic; counterexample in Lemmas/Glue.lean.  A proof for the
-   regenerated table needs table-specific facts about where guards sit.) -/
+/- Linear matching work: false for an arbitrary table (counter-example in Lemmas/Glue.lean); proved for
+   the regenerated table under kernel-checked queue facts in Props/C01Linear.lean
+   (`C01_match_calls_linear`: calls ≤ workPerToken T · (lines + 1), workPerToken = 20 today). -/
 
 /-- Compiling any rectangular document returns a list of pickles (totality; from C06). -/
 theorem C01_compile_total (uri : Str) (doc : Doc) (n : Nat) (h : Spec.rectangular doc) :
